@@ -161,91 +161,206 @@ B64_CLASSES = [((0x00, 0x2A), False), ((0x2B, 0x2B), True), ((0x2C, 0x2E), False
                ((0x41, 0x5A), True), ((0x5B, 0x60), False), ((0x61, 0x7A), True), ((0x7B, 0xFF), False)]
 
 
-class ClassHooks(SliceHooks):
+class GroupHooks(SliceHooks):
     unroll = 0
     widen_on_entry = True
-    max_paths = 4000
+    max_paths = 8000
+    storage = None
 
-    def __init__(self, m, storage):
-        SliceHooks.__init__(self, m)
-        self.storage = storage
-
-    def widen_value(self, I, st, fn, header, name, current):
-        if isinstance(current, PtrV):
-            if current.obj == self.storage.obj:
-                return PtrV(current.obj, self.storage.off + Lin.atom('cur'))
-            if current.obj == 'OUT':
-                return PtrV('OUT', Lin.atom('outpos'))
-        return None
+    def on_access(self, I, st, inst, kind, p, nbytes):
+        if kind == 'load' and self.storage is not None and p.obj == self.storage and nbytes == 1:
+            st.ev('unit-load', inst, p.off, st.objs[p.obj].version)
 
 
-_CTX = {}
+def _signed(v, b):
+    return v - (1 << b) if v >= (1 << (b - 1)) else v
 
 
-def _accept_one(item):
-    kind, dem, nin, pos, rng, ok = item
-    m, F, E = _CTX['m'], _CTX['F'], _CTX['E']
+def group_paths(m, F, E, f):
+    """One arbitrary iteration of the decoder's main loop: for every path the units of the string examined inside the loop since the
+    loop head, each with the set of values (0..255) that the path's facts about that unit - directly, through arithmetic on it, or
+    through constant-table lookups indexed by it - leave possible."""
+    from ..interp import loop_info
+    from ..terms import base_atoms, eval_lin, eval_atom
+    from ..state import DERIVED
     L = own.buffer_layout(m, 'char')
-    f = [m.func(x) for x in F.lib if m.func(x).dem == dem][0]
-    classes = HEX_CLASSES if kind == 'hex' else B64_CLASSES
-    valid = [c for c, okc in classes if okc][0]
+    loops, back = loop_info(f)
     st = State()
-    I = Interp(m, F, E, None)
+    H = GroupHooks(m)
+    I = Interp(m, F, E, H)
     this, ret, entry = string_scene(I, st, L, 'large', with_ret=False)
-    I.h = ClassHooks(m, entry['storage'])
+    H.storage = entry['storage'].obj
     st.rng['osize'] = (0, MAXLEN)
     out = Obj('ext', Lin.atom('osize'))
     out.lazy = True
     st.objs['OUT'] = out
-    st.rng['cur'] = (0, MAXLEN)
-    st.rng['outpos'] = (0, MAXLEN)
-    sto = st.objs[entry['storage'].obj]
-    unit = []
-    for k in range(nin):
-        a = ('load', entry['storage'].obj, entry['storage'].off + Lin.atom('cur') + k, sto.version, 8)
-        st.rng[a] = rng if k == pos else valid
-        unit.append(a)
     outs = I.run(I.start(f, [PtrV(this), PtrV('OUT'), IntV(64, Lin.atom('osize'), 'u')], st))
-    bad, und = [], []
-    seen_it = 0
+    res = []
     for o in outs:
         s2 = o.st
+        ws = [(k, e) for k, e in enumerate(s2.events) if e[0] == 'widen' and e[1] == f.name]
+        if not ws:
+            continue
+        wi, wev = ws[-1]
+        body = loops.get(wev[2], set())
+        after = [e for e in s2.events[wi + 1:] if e[0] == 'unit-load']
+        inloop = [e for e in after if e[1].block in body]
+        if not inloop or len(inloop) != len(after):
+            continue                    # no group examined, or the tail group (its '=' rules are R15.4)
         if o.kind == 'backedge':
-            seen_it += 1
-            if not ok:
-                env = s2.find_model([Lin.atom(unit[pos])], lambda v: True, extra_atoms=[unit[pos]])
-                if env is not None and unit[pos] in env:
-                    bad.append('a group whose unit %d is 0x%02X (not a digit of the encoding) is accepted' % (pos, env[unit[pos]]))
-                else:
-                    und.append('acceptance of a non-digit class not decided')
-        elif o.kind == 'ret' and isinstance(o.val, IntV) and s2.is_eq0(I.as_s(s2, o.val) + 1) is True and ok and kind == 'hex':
-            wi = [e for e in s2.events if e[0] == 'widen' and e[1] == f.name]
-            lds = [e for e in s2.events if e[0] == 'table-load']
-            if wi and lds:
-                bad.append('a group of valid digits is rejected (unit %d in [0x%02X,0x%02X])' % (pos, rng[0], rng[1]))
-    if seen_it == 0 and ok:
-        und.append('no accepting iteration path explored')
-    disc = '%s unit %d in [0x%02X,0x%02X]' % (kind, pos, rng[0], rng[1])
-    verdict = False if bad else (None if und else True)
-    return (short(f.dem, 60), verdict, bad[0] if bad else (und[0] if und else ('accepted' if ok else 'rejected')), disc, fn_loc(f))
+            cls = 'accept'
+        elif o.kind == 'ret' and isinstance(o.val, IntV) and s2.is_eq0(I.as_s(s2, o.val) + 1) is True:
+            cls = 'reject'
+        else:
+            continue
+        tl = [e for e in s2.events[wi + 1:] if e[0] == 'table-load']
+        reads, why, seen = [], None, set()
+        for e in inloop:
+            u = ('load', H.storage, e[2], e[3], 8)
+            if u in seen:
+                continue
+            seen.add(u)
+            if u not in s2.rng:
+                why = 'a unit read that is not tracked as a value'
+                break
+            ulo, uhi = s2.arange(u)
+            # constant-table values looked up with this unit alone
+            tabs = []
+            for t in tl:
+                tobj, off, a = t[2], t[3], t[4]
+                if base_atoms(off) == set([u]):
+                    sa = ('tbl',) + tuple(a[1:])
+                    va = sa if sa in s2.rng else a
+                    tabs.append((va, va is sa, off, s2.objs[tobj].attrs.get('data'), s2.objs[tobj].attrs.get('eltbytes', 1), a[4]))
+            mine = set([u]) | set(t[0] for t in tabs)
+            mixed = False
+            rel_ge, rel_ne = [], []
+            for fct, dst in [(x, rel_ge) for x in s2.facts] + [(x, rel_ne) for x in s2.nefacts]:
+                fa = base_atoms(fct)
+                if fa & mine:
+                    if fa <= mine:
+                        dst.append(fct)
+                    else:
+                        mixed = True
+            derived = [(a2, r2) for a2, r2 in s2.rng.items() if isinstance(a2, tuple) and a2[0] in DERIVED and base_atoms(Lin.atom(a2)) <= mine]
+            allowed = []
+            for v in range(max(ulo, 0), min(uhi, 255) + 1):
+                env = {u: v}
+                ok = True
+                for (va, sg, off, data, eb, b) in tabs:
+                    try:
+                        idx = eval_lin(off, env)
+                    except KeyError:
+                        why = 'a table index that cannot be evaluated'
+                        break
+                    if data is None or idx % eb or not (0 <= idx // eb < len(data)):
+                        ok = False
+                        break
+                    tv = data[idx // eb]
+                    tv = _signed(tv, b) if sg else tv
+                    lo2, hi2 = s2.arange(va)
+                    if not (lo2 <= tv <= hi2):
+                        ok = False
+                        break
+                    env[va] = tv
+                if why:
+                    break
+                if not ok:
+                    continue
+                try:
+                    if any(eval_lin(x, env) < 0 for x in rel_ge) or any(eval_lin(x, env) == 0 for x in rel_ne):
+                        continue
+                    if any(not (r2[0] <= eval_atom(a2, env) <= r2[1]) for a2, r2 in derived):
+                        continue
+                except KeyError:
+                    mixed = True
+                allowed.append(v)
+            if why:
+                break
+            reads.append(dict(unit=u, uoff=e[2], allowed=allowed, mixed=mixed, line=e[1].line))
+        res.append(dict(cls=cls, reads=reads, why=why, st=s2))
+    return res
+
+
+def rank_reads(reads):
+    """Position of each read's unit within its group (0-based), or None when the offsets are not constant distances apart."""
+    if any(r['uoff'] is None for r in reads):
+        return None
+    base = reads[0]['uoff']
+    ds = []
+    for r in reads:
+        d = r['uoff'] - base
+        if d.t:
+            return None
+        ds.append(d.c)
+    lo = min(ds)
+    return [d - lo for d in ds]
 
 
 def acceptance(run, m, F, E):
-    """R15.1: unit by unit, a full group is accepted iff every unit is a digit of the encoding (oracle classes of RFC 4648)."""
-    import multiprocessing
-    items = []
+    """R15.1: unit by unit, a full group is accepted iff every unit is a digit of the encoding (oracle classes of RFC 4648).
+    Judged on the paths of one arbitrary iteration, whatever the shape of the loop: an accepting path must leave no non-digit
+    value possible for any unit it looked up; a rejecting path must exclude the digits for at least one of them."""
+    n = 0
     for kind, dem, nin in CORES:
+        f = [m.func(x) for x in F.lib if m.func(x).dem == dem]
+        run.need(f, '%s not found' % dem)
+        f = f[0]
         classes = HEX_CLASSES if kind == 'hex' else B64_CLASSES
+        digits = set()
+        for (lo, hi), okc in classes:
+            if okc:
+                digits |= set(range(lo, hi + 1))
+        paths = group_paths(m, F, E, f)
+        acc = [p for p in paths if p['cls'] == 'accept']
+        rej = [p for p in paths if p['cls'] == 'reject']
+        und_all = [p['why'] for p in paths if p['why']]
+        full = []
+        for p in acc:
+            rk = rank_reads(p['reads']) if not p['why'] else None
+            if rk is not None and sorted(rk) == list(range(nin)):
+                full.append((p, rk))
+            elif not p['why']:
+                und_all.append('an accepting iteration looks up %d unit(s), expected the %d of a group' % (len(p['reads']), nin))
         for pos in range(nin):
-            for (rng, ok) in classes:
-                items.append((kind, dem, nin, pos, rng, ok))
-    _CTX.update(m=m, F=F, E=E)
-    ctx = multiprocessing.get_context('fork')
-    with ctx.Pool(min(12, len(items))) as pool:
-        res = pool.map(_accept_one, items, chunksize=2)
-    for (subject, verdict, detail, disc, loc) in res:
-        run.ob('R15.1', subject, verdict, detail, disc=disc, loc=loc)
-    return len(items)
+            for (lo, hi), okc in classes:
+                n += 1
+                disc = '%s unit %d in [0x%02X,0x%02X]' % (kind, pos, lo, hi)
+                cls_vals = set(range(lo, hi + 1))
+                bad, und = [], list(und_all)
+                if not full:
+                    und.append('no accepting iteration path explored')
+                if not okc:
+                    for p, rk in full:
+                        r = p['reads'][rk.index(pos)]
+                        hit = sorted(set(r['allowed']) & cls_vals)
+                        if hit:
+                            (und if r['mixed'] else bad).append('a group whose unit %d is 0x%02X (not a digit of the encoding) is accepted (unit read at line %d)' % (pos, hit[0], r['line']))
+                else:
+                    for p in rej:
+                        if p['why']:
+                            continue
+                        rk = rank_reads(p['reads'])
+                        if rk is None:
+                            und.append('a rejecting path whose lookups are not at fixed distances')
+                            continue
+                        if all(set(r['allowed']) & digits for r in p['reads']) and pos in rk:
+                            r = p['reads'][rk.index(pos)]
+                            hit = sorted(set(r['allowed']) & cls_vals)
+                            if hit:
+                                (und if any(x['mixed'] for x in p['reads']) else bad).append(
+                                    'a group of valid digits is rejected (unit %d = 0x%02X, the other units digits)' % (pos, hit[0]))
+                    for p, rk in full:
+                        r = p['reads'][rk.index(pos)]
+                        if not (set(r['allowed']) >= cls_vals) and not r['mixed']:
+                            # an accepting path that excludes part of a digit class is fine only if another accepting path takes it
+                            rest = cls_vals - set(r['allowed'])
+                            others = [q for q, rk2 in full if q is not p and rest <= set(q['reads'][rk2.index(pos)]['allowed'])]
+                            if not others and not rej:
+                                und.append('digit 0x%02X of unit %d neither accepted nor rejected on the explored paths' % (sorted(rest)[0], pos))
+                verdict = False if bad else (None if und else True)
+                run.ob('R15.1', short(f.dem, 60), verdict, bad[0] if bad else (und[0] if und else ('accepted' if okc else 'rejected')), disc=disc, loc=fn_loc(f))
+    return n
 
 
 def padding(run, m, F, E):
